@@ -267,3 +267,7 @@ REGISTRY["C06"]["theorems"] += REPR
 REGISTRY["C19"]["theorems"] += T("Proofs.C19", "BLDFM.C19", ["z0_window_circular", "z0_window_rotation"]) + T("Proofs.Bridge.Tables", "BLDFM.Bridge", ["estimateZ0_steps_table"], "bridge")
 REGISTRY["C19"]["kernel_groups"].append("Tables")
 REGISTRY["C19"]["partial_clauses"][2] = "z0 smoothing: membership in the circular +-h window and its invariance under whole-degree rotations are theorems (z0_window_circular, z0_window_rotation); that the median of the selected observations is then invariant is immediate and checked by the oracle; non-integer rotations move observations across the 1-degree bins and are outside the clause"
+REGISTRY["C04"]["theorems"] += T("Proofs.C04b", "BLDFM.C04", ["conc_coef", "solve_linear"]) + REPR
+REGISTRY["C04"]["partial_clauses"] = ["float rounding (linearity is exact over the reals; the oracle tolerates 1e-10 relative in double, 3e-5 in single)"]
+REGISTRY["C02"]["theorems"] += T("Proofs.C02c", "BLDFM.C02", ["recip_core", "bg_term", "footprint_reciprocity_conc"]) + T("Proofs.C04b", "BLDFM.C04", ["conc_coef"])
+REGISTRY["C02"]["partial_clauses"] = ["single-precision storage rounding (both reciprocity identities are theorems through the whole model pipeline over exact arithmetic)"]
